@@ -152,9 +152,33 @@ def _assemble_cases(tier):
                 continue
             for num in nums:
                 out.append({"kind": "assemble", "form": "bilinear", "field": field, "elemType": et, "numbering": num})
+            # forms in other unit systems (entries of magnitude 1e-15 / 1e12): nothing may be dropped by an absolute threshold
+            for sc in ASSEMBLE_SCALES:
+                out.append({"kind": "assemble", "form": "bilinear", "field": field, "elemType": et, "numbering": "seeded", "scale": sc})
     for et in _types("scalar"):
         for num in nums:
             out.append({"kind": "assemble", "form": "linear", "field": "scalar", "elemType": et, "numbering": num})
+        for sc in ASSEMBLE_SCALES:
+            out.append({"kind": "assemble", "form": "linear", "field": "scalar", "elemType": et, "numbering": "seeded", "scale": sc})
+    return out
+
+
+ASSEMBLE_SCALES = [1e-15, 1e12]
+MOVES = ["translate", "rotate", "symmetry", "setcoord"]
+
+
+def _moved_cases(tier):
+    """E2, depth 2: the same Field and the same form objects are evaluated, the mesh is moved through the public API, and they are
+    evaluated again: the element arrays must follow the current mesh (coefficients sampled at the current Gauss points)."""
+    out = []
+    ets = ["SEG2", "TRI3", "QUAD4", "QUAD8", "TETRA4"] if tier == "quick" else list(Z.ALL_TYPES)
+    for et in ets:
+        for prog in ("M[fun]", "G[fun]", "V[fun]"):
+            for mv in MOVES:
+                for first in ((True,) if tier == "quick" else (True, False)):
+                    out.append({"kind": "moved", "elemType": et, "program": prog, "move": mv, "evaluate_first": first})
+    for mv in MOVES:
+        out.append({"kind": "moved", "elemType": "TRI3", "program": "simu", "move": mv, "evaluate_first": True})
     return out
 
 
@@ -245,8 +269,99 @@ def _run_nonsym(case):
             "outcome": "agree" if not v else "violation"}
 
 
+def _apply_move(mesh, mv, r):
+    d = mesh.dim
+    if mv == "translate":
+        t = np.zeros(3)
+        t[:d] = r.uniform(0.4, 0.9, size=d)
+        mesh.Translate(*t)
+    elif mv == "rotate":
+        direction = (0, 0, 1) if d < 3 else tuple(r.normal(size=3))
+        mesh.Rotate(float(r.uniform(25, 70)), (0.1, -0.2, 0.0) if d < 3 else (0.1, -0.2, 0.3), direction)
+    elif mv == "symmetry":
+        n = np.zeros(3)
+        n[:d] = r.normal(size=d)
+        mesh.Symmetry((0.3, 0.1, 0.0), tuple(n))
+    else:
+        X = np.array(mesh.coord, dtype=float)
+        A = np.eye(3)
+        A[:d, :d] += r.uniform(-0.25, 0.25, size=(d, d))
+        Y = X @ A.T
+        Y[:, :d] += r.uniform(0.2, 0.5, size=d)
+        mesh.coord = Y
+
+
+def _run_moved(case):
+    from EasyFEA import Models, Simulations
+    from EasyFEA.FEM import Field
+
+    et, prog, mv, first = case["elemType"], case["program"], case["move"], case["evaluate_first"]
+    key = dict(kind="moved", elemType=et, program=prog, move=mv, evaluate_first=first)
+    r = rng("c13moved", et, mv)
+    mesh = _zoo(et, "affine").build(with_boundary=False)
+    g = mesh.groupElem
+    v = []
+    if prog == "simu":
+        # a WeakForms simulation whose forms sample a coefficient at the Gauss points: K and F before and after the move
+        cK, cF = _Scal("fun", "movedK", g.Ne), _Scal("fun", "movedF", g.Ne)
+        from EasyFEA.FEM import BiLinearForm, LinearForm, MatrixType
+
+        fld = Field(g, 1, MatrixType.rigi)
+        wf = Models.WeakForms(fld, BiLinearForm(lambda u, w: cK.user(u) * u.grad.dot(w.grad)), computeF=LinearForm(lambda w: cF.user(w) * w))
+        simu = Simulations.WeakForms(mesh, wf)
+
+        def observe():
+            K, C, M, F = simu.Get_K_C_M_F()
+            return todense(K), np.asarray(todense(F)).ravel()
+
+        def reference():
+            from EasyFEA.FEM import Operators
+
+            Ke = np.asarray(Operators.Bilinear.GradUGradV(g, cK.oper(g, MatrixType.rigi), MatrixType.rigi))
+            Fe = np.asarray(Operators.Linear.V(g, cF.oper(g, MatrixType.rigi), 1, MatrixType.rigi))
+            conn = np.asarray(g.connect, dtype=int)
+            return _scatter(Ke, conn, 1, g.Ncoords, True), _scatter(Fe.reshape(g.Ne, g.nPe, 1), conn, 1, g.Ncoords, False).ravel()
+
+        stages = ["initial", mv]
+        obs = []
+        for st in stages:
+            if st != "initial":
+                _apply_move(mesh, mv, r)
+            K, F = observe()
+            Kr, Fr = reference()
+            obs += [Kr, Fr]
+            for nm, a, b in (("K", K, Kr), ("F", F, Fr)):
+                err = relerr(a, b)
+                if err > TOL_SOLVE:
+                    v.append(viol("moved_mesh", f"WeakForms simulation on {et}, stage {st}: assembled {nm} differs from the built-in operator with the "
+                                                f"coefficient sampled at the current Gauss points, rel err {err:.2e}", stage=st, what=nm, **key))
+        return {"violations": v, "fingerprint": fp("moved", case, *obs), "nontrivial": True, "outcome": "agree" if not v else "violation", "transitions": 2}
+    base = prog[:-1].split("[")[0]
+    bilinear = base != "V"
+    mt = _matrix_type("mass" if base in ("M", "V") else "rigi")
+    terms = [_Term(prog, "scalar", g)]
+    form = _form_of(terms, bilinear=bilinear)
+    fld = Field(g, 1, mt)
+    obs = []
+    for st in (["initial", mv] if first else [mv]):
+        if st != "initial":
+            _apply_move(mesh, mv, r)
+        oracle = np.asarray(terms[0].oper(g, mt), dtype=float)
+        got = np.asarray(form.Integrate_e(fld), dtype=float)
+        got = got.reshape(oracle.shape) if got.size == oracle.size else got
+        obs.append(oracle)
+        err = relerr(got, oracle) if got.shape == oracle.shape else np.inf
+        if err > 1e-11:
+            v.append(viol("moved_mesh", f"{prog} on {et}, stage {st}: Integrate_e with the same Field differs from the operator evaluated on the current mesh, "
+                                        f"rel err {err:.2e}", stage=st, **key))
+    moved = relerr(obs[-1], obs[0]) if len(obs) > 1 else 1.0
+    return {"violations": v, "fingerprint": fp("moved", case, *obs), "nontrivial": bool(g.Ne > 1 and moved > 1e-6),
+            "outcome": "agree" if not v else "violation", "transitions": len(obs)}
+
+
 def cases(tier, seed):
-    out = _single_cases(tier) + _pair_cases(tier) + _linear_cases(tier) + _assemble_cases(tier) + _simu_cases(tier) + _nonsym_cases(tier)
+    out = (_single_cases(tier) + _pair_cases(tier) + _linear_cases(tier) + _assemble_cases(tier) + _simu_cases(tier) + _nonsym_cases(tier)
+           + _moved_cases(tier))
     # ordering only (the set is unchanged): the runner hands out chunks of 8 consecutive cases; deal the cases, longest first,
     # round-robin into the chunks so that every chunk costs about the same, and put the cheap ones first inside a chunk
     out.sort(key=lambda c: -_est(c))
@@ -675,6 +790,9 @@ def _run_assemble(case):
 
     form, field, et, num = case["form"], case["field"], case["elemType"], case["numbering"]
     key = dict(form=form, field=field, elemType=et, numbering=num)
+    sc = float(case.get("scale", 1.0))
+    if sc != 1.0:
+        key["scale"] = sc
     mk = "general" if Z.topo(et) in ("QUAD", "HEXA") else "affine"
     zm = _zoo(et, mk)
     if num != "identity":
@@ -691,13 +809,13 @@ def _run_assemble(case):
     if form == "bilinear":
         B = r.uniform(-1, 1, size=(dim, dim)) + 2 * np.eye(dim)  # NOT symmetric: fixes the rows/columns convention
         if field == "scalar":
-            f = BiLinearForm(lambda u, v: (u.grad @ B).dot(v.grad))
+            f = BiLinearForm(lambda u, v: sc * (u.grad @ B).dot(v.grad))
         else:
-            f = BiLinearForm(lambda u, v: (u.grad @ B).ddot(v.grad))
+            f = BiLinearForm(lambda u, v: sc * (u.grad @ B).ddot(v.grad))
         ntrans = 2 * ndof * ndof
     else:
         cf = _Scal("fun", "asm", g.Ne)
-        f = LinearForm(lambda v: cf.user(v) * v)
+        f = LinearForm(lambda v: sc * cf.user(v) * v)
         ntrans = 2 * ndof
     data = np.asarray(f.Integrate_e(fld), dtype=float)
     ref = _scatter(data, np.asarray(g.connect, dtype=int), dof_n, g.Ncoords, form == "bilinear")
@@ -719,7 +837,7 @@ def _run_assemble(case):
             idx = np.unravel_index(np.argmax(np.abs(got - ref)), ref.shape)
             v.append(viol(f"assemble_{form}", f"{type(f).__name__}.Assemble on {et} ({num} numbering): differs from the scatter-add of its own "
                                               f"Integrate_e, rel err {err:.2e} at {tuple(int(i) for i in idx)}: {got[idx]:.12g} vs {ref[idx]:.12g}", **key))
-    return {"violations": v, "fingerprint": fp(form, field, et, num, ref), "nontrivial": bool(g.Ne > 1 and asym > 1e-3),
+    return {"violations": v, "fingerprint": fp(form, field, et, num, sc, ref), "nontrivial": bool(g.Ne > 1 and asym > 1e-3),
             "outcome": "agree" if not v else "violation", "transitions": ntrans}
 
 
